@@ -286,6 +286,7 @@ def run(ctx):
     thorough = ctx.tier == "thorough"
     procs = min(16, os.cpu_count() or 4, int(os.environ.get("VERIF_PROCS", "16")))
     cfg = "ClassDecl_thorough.cfg" if thorough else "ClassDecl_quick.cfg"
+    par.start(procs)      # fork the workers while the parent is still small
     r = tlc.run("ClassDecl", cfg, workers=1, coverage=False, timeout=3000)
     ctx.add_tlc(r, "listener machine = declared content, no shared objects, orders, duplicates (intended switches)")
     if r.violated or r.deadlock:
@@ -298,7 +299,7 @@ def run(ctx):
         raise MachineryError("TLC explored %d states, expected %d callbacks + 2 per program" % (r.distinct, nev + 2 * len(progs)))
     # as-built switches: TLC itself must find that the model of the pinned code violates the property
     ra = tlc.run("ClassDecl", "ClassDecl_asbuilt.cfg", workers=1, timeout=1200)
-    ctx.add_tlc(ra, "as-built switches (expected to violate OperationalIsDeclarative)")
+    ctx.add_tlc(ra, "as-built switches (TLC is expected to report a violated invariant)")
     asbuilt_violates = bool(ra.violated)
 
     # vacuity: every callback of the machine occurs, every family / feature is present
